@@ -65,6 +65,15 @@ CLAIMED = {
     "C17": ("CrossHair on make_partial_rule_dataset with a scripted candidate stream; E4/z3 nlsat: duplication monotonicity as a polynomial inequality obtained by running the real likelihood/prior constructors in log-of-product normal form",
             "Bounds: <= 2 candidates, productions <= 3; MONO for traces with <= 2 (quick) / <= 3 (thorough) distinct n-gram features.",
             "§5 C17"),
+    "C10": ("E3: z3 over strings of N symbolic characters for the two label scanners (patterns re-read from the sources); API-level differential over symbolic pool indices for subject/labels on match and no-match paths",
+            "Trusted: the property's own precondition (valid, separator-delimited hashtags). Bounds: N <= 7 (quick) / 9 (thorough) characters over 8 classes; pools of 2-3 words / hashtags / separators, 1..2 pieces.",
+            "§5 C10"),
+    "C11": ("E3: _preprocess_string as a z3 transducer over N symbolic code points with class predicates tied to the real compiled classes; class agreement with the Unicode-category specification; E2 TOK-CASE; API differential over pool indices",
+            "Trusted: leftmost-greedy = maximal-run scanning for single-class '+' patterns (shape checked on every run); class tables read from the compiled classes. Bounds: N <= 8 (quick) / 11 (thorough) code points; case mappings of equal length.",
+            "§5 C11"),
+    "C19": ("z3 regular-expression theory: no zero-length match under any context, every pattern language non-empty; CrossHair POD-CLOSED; shape-fixpoint liveness of every rule; ground structural facts on registry vs. syntax tree and model vocabulary",
+            "The structural facts have no quantifier and are evaluated as ground assertions (engine 'ground' in the evidence).",
+            "§5 C19"),
 }
 
 NOT_YET = {}
